@@ -3,9 +3,12 @@ package main
 // E3: guard facts by edge dominance, and CFG reachability helpers.
 
 import (
+	"fmt"
 	"go/constant"
 	"go/token"
 	"go/types"
+	"sort"
+	"strings"
 
 	"golang.org/x/tools/go/ssa"
 )
@@ -713,11 +716,94 @@ type walkState struct {
 // walkWithout explores the (jump-threaded) CFG from the given states and returns the first
 // target instruction reached on a path that passes no blocker.
 func walkWithout(work []walkState, target, blocker instrPred) ssa.Instruction {
-	type key struct{ pred, b *ssa.BasicBlock }
+	// The walk carries, along each path, the truth values of the boolean merges it came
+	// through (a result flag set to false on the exit taken, say): a later branch on such a
+	// flag — or on its negation, or on a merge that copies it — takes only the matching edge.
+	type key struct {
+		pred, b *ssa.BasicBlock
+		env     string
+	}
+	type state struct {
+		walkState
+		env map[ssa.Value]bool
+	}
+	sig := func(env map[ssa.Value]bool) string {
+		if len(env) == 0 {
+			return ""
+		}
+		var parts []string
+		for v, t := range env {
+			parts = append(parts, fmt.Sprintf("%s=%v", v.Name(), t))
+		}
+		sort.Strings(parts)
+		return strings.Join(parts, ",")
+	}
+	var evalB func(v ssa.Value, env map[ssa.Value]bool, depth int) (bool, bool)
+	evalB = func(v ssa.Value, env map[ssa.Value]bool, depth int) (bool, bool) {
+		if depth > 4 {
+			return false, false
+		}
+		if t, ok := env[v]; ok {
+			return t, true
+		}
+		switch x := v.(type) {
+		case *ssa.Const:
+			if x.Value != nil && x.Value.Kind() == constant.Bool {
+				return constant.BoolVal(x.Value), true
+			}
+		case *ssa.UnOp:
+			if x.Op == token.NOT {
+				if t, ok := evalB(x.X, env, depth+1); ok {
+					return !t, true
+				}
+			}
+		}
+		return false, false
+	}
 	seen := map[key]bool{}
-	for len(work) > 0 {
-		s := work[len(work)-1]
-		work = work[:len(work)-1]
+	var st []state
+	for _, w := range work {
+		st = append(st, state{w, nil})
+	}
+	for len(st) > 0 {
+		s := st[len(st)-1]
+		st = st[:len(st)-1]
+		// values of this block's boolean merges on the edge we came over
+		env := s.env
+		if s.pred != nil {
+			idx := -1
+			for i, p := range s.b.Preds {
+				if p == s.pred {
+					idx = i
+				}
+			}
+			if idx >= 0 {
+				var upd map[ssa.Value]bool
+				for _, in := range s.b.Instrs {
+					phi, ok := in.(*ssa.Phi)
+					if !ok {
+						break
+					}
+					if !isBoolType(phi.Type()) {
+						continue
+					}
+					if upd == nil {
+						upd = map[ssa.Value]bool{}
+						for k, v := range env {
+							upd[k] = v
+						}
+					}
+					if t, ok := evalB(phi.Edges[idx], env, 0); ok {
+						upd[phi] = t
+					} else {
+						delete(upd, phi)
+					}
+				}
+				if upd != nil {
+					env = upd
+				}
+			}
+		}
 		blocked := false
 		for i := s.i; i < len(s.b.Instrs); i++ {
 			in := s.b.Instrs[i]
@@ -732,11 +818,24 @@ func walkWithout(work []walkState, target, blocker instrPred) ssa.Instruction {
 		if blocked {
 			continue
 		}
-		for _, succ := range feasibleSuccs(s.pred, s.b) {
-			k := key{s.b, succ}
+		succs := feasibleSuccs(s.pred, s.b)
+		if ifi, ok := s.b.Instrs[len(s.b.Instrs)-1].(*ssa.If); ok && len(succs) == 2 && len(env) > 0 {
+			if t, ok := evalB(ifi.Cond, env, 0); ok {
+				if t {
+					succs = s.b.Succs[:1]
+				} else {
+					succs = s.b.Succs[1:2]
+				}
+			}
+		}
+		if len(env) > 12 {
+			env = nil // give up the history rather than blow up the state space
+		}
+		for _, succ := range succs {
+			k := key{s.b, succ, sig(env)}
 			if !seen[k] {
 				seen[k] = true
-				work = append(work, walkState{s.b, succ, 0})
+				st = append(st, state{walkState{s.b, succ, 0}, env})
 			}
 		}
 	}
